@@ -45,6 +45,18 @@ var (
 	rng *vh.Rand
 )
 
+// recordFail passes an oracle failure to vh - at most 3 per key: vh keeps only the first 200
+// failures of a run, and the random fault histories of the thorough tier produce hundreds under
+// the known keys; without this a failure with a NEW key late in the run would be dropped.  The full
+// count per key goes into the evidence (extra oracle_failures_per_key).
+var failCount = map[string]int{}
+
+func recordFail(what, key string, c interface{}) {
+	if failCount[key]++; failCount[key] <= 3 {
+		out.Fail(what, key, c)
+	}
+}
+
 func ints(b []byte) []int {
 	o := make([]int, len(b))
 	for i, v := range b {
@@ -80,21 +92,21 @@ func doXor(buf, key []byte, class string) {
 		subtle.XorOp(got, key)
 	}()
 	if pan {
-		out.Fail("XorOp panicked", "xor-panic", desc)
+		recordFail("XorOp panicked", "xor-panic", desc)
 		return
 	}
 	nontrivial := len(buf) > 0 && len(key) > 0
 	out.Add(fmt.Sprintf("CXor %s %s %s", vh.Bytes(buf), vh.Bytes(key), vh.Bytes(got)), class, nontrivial, desc)
 	if len(got) != len(buf) {
-		out.Fail("XorOp changed the length", "xor-length", desc)
+		recordFail("XorOp changed the length", "xor-length", desc)
 	}
 	if !bytes.Equal(got, xorRef(buf, key)) {
-		out.Fail("XorOp is not the XOR with the repeating key", "xor-value", desc)
+		recordFail("XorOp is not the XOR with the repeating key", "xor-value", desc)
 	}
 	back := append([]byte(nil), got...)
 	subtle.XorOp(back, key)
 	if !bytes.Equal(back, buf) {
-		out.Fail("XorOp applied twice does not restore the buffer", "xor-involution", desc)
+		recordFail("XorOp applied twice does not restore the buffer", "xor-involution", desc)
 	}
 	if len(key) != 65 {
 		return
@@ -114,11 +126,11 @@ func doXor(buf, key []byte, class string) {
 	d2 := map[string]interface{}{"fn": "Chunk.KeyCrypt", "buf": ints(buf), "share": ints(key)}
 	out.Add(fmt.Sprintf("CXor %s %s %s", vh.Bytes(buf), vh.Bytes(key), vh.Bytes(enc)), class+"-chunk", nontrivial, d2)
 	if c.Size() != size || len(enc) != len(buf) {
-		out.Fail("KeyCrypt changed the Chunk size", "keycrypt-length", d2)
+		recordFail("KeyCrypt changed the Chunk size", "keycrypt-length", d2)
 	}
 	c.KeyCrypt(k)
 	if !bytes.Equal(data.VerifC06Buf(&c), buf) && len(buf) > 0 {
-		out.Fail("KeyCrypt applied twice does not restore the Chunk", "keycrypt-involution", d2)
+		recordFail("KeyCrypt applied twice does not restore the Chunk", "keycrypt-involution", d2)
 	}
 }
 
@@ -228,12 +240,12 @@ func doPair(aPriv data.PrivateKey, aPub data.PublicKey, bPriv data.PrivateKey, b
 	}
 	if !bytes.Equal(dab, dba) {
 		// the section hypothesis of the proofs (trusted base), checked at run time
-		out.Fail("crypto/ecdh: dh a (pub b) != dh b (pub a)", "ecdh-contract", desc)
+		recordFail("crypto/ecdh: dh a (pub b) != dh b (pub a)", "ecdh-contract", desc)
 	}
 	lenHist[len(dab)]++
 	desc["ecdh_len"] = len(dab)
 	var shares []data.SharedKeys
-	fail := func(what string) { out.Fail(what, "keypair-"+class, desc) }
+	fail := func(what string) { recordFail(what, "keypair-"+class, desc) }
 	// client role: own private, peer public
 	{
 		k := data.KeyPair{Private: aPriv, Public: aPub}
@@ -298,7 +310,7 @@ func freshPair() (data.PrivateKey, data.PublicKey) {
 	var k data.KeyPair
 	k.Fill()
 	if k.IsSynced() {
-		out.Fail("Fill left a non-zero share", "fill-share", nil)
+		recordFail("Fill left a non-zero share", "fill-share", nil)
 	}
 	return k.Private, k.Public
 }
@@ -596,7 +608,7 @@ func (w *world) failKey(what, kind, key string) {
 	if key == "" {
 		key = "history-no-fault:" + kind
 	}
-	out.Fail(what, key, map[string]interface{}{"history": w.hist, "finding_shape": w.taint})
+	recordFail(what, key, map[string]interface{}{"history": w.hist, "finding_shape": w.taint})
 }
 
 // stopLoop ends the listen() goroutine of the current client Session and waits for it.
@@ -608,7 +620,7 @@ func (w *world) stopLoop() {
 	select {
 	case <-w.loop.Done:
 	case <-time.After(20 * time.Second):
-		out.Fail("listen() did not return after its connector only failed", "harness-listen-stuck", nil)
+		recordFail("listen() did not return after its connector only failed", "harness-listen-stuck", nil)
 	}
 	w.loop, w.prof = nil, nil
 }
@@ -678,7 +690,7 @@ func (w *world) channel(r round) {
 		}
 		cc, err := c2.VerifC06ChanOpen(w.l, ss, w.cli)
 		if err != nil {
-			out.Fail("channel: resolve failed: "+err.Error(), "channel-setup", nil)
+			recordFail("channel: resolve failed: "+err.Error(), "channel-setup", nil)
 			return
 		}
 		w.cc, w.chanRekeyed = cc, false
@@ -770,20 +782,20 @@ func (w *world) channel(r round) {
 	}
 	desc := map[string]interface{}{"history": w.hist, "finding_shape": w.taint, "rekey_drawn_inside_channel": w.chanRekeyed}
 	if e1 != nil {
-		out.Fail("a Packet could not be moved through the channel: "+e1.Error(), key, desc)
+		recordFail("a Packet could not be moved through the channel: "+e1.Error(), key, desc)
 	}
 	if r.Kind == "chan-up" && len(p) > 0 && (len(sgot) != 1 || !bytes.Equal(sgot[0], p)) {
-		out.Fail("a payload sent by the client inside a channel did not arrive unchanged (the server connection decrypts with conn.keys)", key, desc)
+		recordFail("a payload sent by the client inside a channel did not arrive unchanged (the server connection decrypts with conn.keys)", key, desc)
 	}
 	if r.Kind == "chan-down" && len(q) > 0 && (len(cgot) != 1 || !bytes.Equal(cgot[0], q)) {
-		out.Fail("a payload sent by the server inside a channel did not arrive unchanged (the server connection encrypts with conn.keys)", key, desc)
+		recordFail("a payload sent by the server inside a channel did not arrive unchanged (the server connection encrypts with conn.keys)", key, desc)
 	}
 	if w.chanRekeyed && r.Kind == "chan-tick" {
-		out.Fail("an idle tick of a client inside a channel drew a re-key (pick() reached keyNextSync while the channel was open)", key, desc)
+		recordFail("an idle tick of a client inside a channel drew a re-key (pick() reached keyNextSync while the channel was open)", key, desc)
 	}
 	if w.cc != nil && ss != nil && w.taint == "" {
 		if cs := w.cc.VerifC06ChanConnShare(); cs != sshare || cs != cshare || cnext != nil {
-			out.Fail("inside a channel the connection's key copy, the server Session and the client Session do not hold one and the same key", key, desc)
+			recordFail("inside a channel the connection's key copy, the server Session and the client Session do not hold one and the same key", key, desc)
 		}
 	}
 }
@@ -791,7 +803,7 @@ func (w *world) channel(r round) {
 // rollWhilePending: the forced re-key roll produced an announcement although a pair was still
 // pending (keyNextSync must refuse: the pending pair is the one the server may already be using).
 func rollWhilePending(w *world, r round) {
-	out.Fail("keyNextSync drew a new KeyPair while one was still pending: the pending pair is overwritten before it was swapped or reverted",
+	recordFail("keyNextSync drew a new KeyPair while one was still pending: the pending pair is overwritten before it was swapped or reverted",
 		"rekey-drawn-while-pending", map[string]interface{}{"history": append(append([]round(nil), w.hist...), r), "finding_shape": w.taint})
 }
 
@@ -940,17 +952,17 @@ func (w *world) exchange(r round) {
 				dead = true
 			case <-time.After(20 * time.Second):
 				dead = true
-				out.Fail("an exchange did not finish within 20 s", "harness-timeout", map[string]interface{}{"history": append(w.hist, r)})
+				recordFail("an exchange did not finish within 20 s", "harness-timeout", map[string]interface{}{"history": append(w.hist, r)})
 			}
 		case <-w.loop.Done:
 			dead = true
 		case <-time.After(20 * time.Second):
 			dead = true
-			out.Fail("listen() did not ask for a connection within 20 s", "harness-timeout", map[string]interface{}{"history": append(w.hist, r)})
+			recordFail("listen() did not ask for a connection within 20 s", "harness-timeout", map[string]interface{}{"history": append(w.hist, r)})
 		}
 		pan = w.loop.VerifC06LoopPanic()
 		if dead && pan == "" {
-			out.Fail("listen() returned in the middle of a history", "listen-ended", map[string]interface{}{"history": append(w.hist, r)})
+			recordFail("listen() returned in the middle of a history", "listen-ended", map[string]interface{}{"history": append(w.hist, r)})
 			w.loop, w.prof, w.cli = nil, nil, nil
 			return
 		}
@@ -963,7 +975,7 @@ func (w *world) exchange(r round) {
 	}
 	w.hist = append(w.hist, r)
 	if pan != "" {
-		out.Fail("panic in listen()/session()/handle(): "+pan, "history-panic", map[string]interface{}{"history": w.hist})
+		recordFail("panic in listen()/session()/handle(): "+pan, "history-panic", map[string]interface{}{"history": w.hist})
 		w.cli, w.loop, w.prof = nil, nil, nil
 		return
 	}
@@ -1027,7 +1039,7 @@ func (w *world) exchange(r round) {
 		// NOT the known behaviour: the write succeeded, the server swapped, only the reply was lost, and
 		// the client has already discarded the announced key: it can never catch up
 		w.taint, w.sinceLoss = "rekey-reply-lost-never-heals", 0
-		out.Fail("after a re-key whose reply was lost the client no longer holds the announced key (keysNext discarded although the write succeeded): it will never catch up with the server",
+		recordFail("after a re-key whose reply was lost the client no longer holds the announced key (keysNext discarded although the write succeeded): it will never catch up with the server",
 			w.taint, map[string]interface{}{"history": w.hist})
 	case rekeyed && r.Fault == "lost-before" && pending && w.taint == "":
 		w.taint, w.sinceLoss = fB, 0
@@ -1048,7 +1060,7 @@ func (w *world) exchange(r round) {
 	if r.Fault == "write" && rekeyed {
 		if cnext != nil || cshare != shareBefore {
 			// its own key whatever else happened in this history: the shape is "the write of the announcement failed with <kind>"
-			out.Fail("a failed write ("+r.Err+") of the re-key announcement did not leave the client on the old key with keysNext cleared",
+			recordFail("a failed write ("+r.Err+") of the re-key announcement did not leave the client on the old key with keysNext cleared",
 				"rekey-write-failed-not-reverted:"+r.Err, map[string]interface{}{"history": w.hist, "error_kind": r.Err, "keys_next_pending": cnext != nil})
 		}
 	}
@@ -1125,7 +1137,7 @@ func runHistory(rounds []round, class string) {
 				continue
 			}
 			if !bytes.Equal(a, b) {
-				out.Fail("crypto/ecdh: dh a (pub b) != dh b (pub a)", "ecdh-contract", nil)
+				recordFail("crypto/ecdh: dh a (pub b) != dh b (pub a)", "ecdh-contract", nil)
 			}
 			lenHist[len(a)]++
 			tab = append(tab, fmt.Sprintf("(%d,%d,%s)", i+1, j+1, vh.Bytes(a)))
@@ -1325,7 +1337,7 @@ func genPick(reps int) {
 	w.do(round{Kind: "connect"})
 	ss := c2.VerifC06ServerSession(w.l, w.id)
 	if w.cli == nil || ss == nil {
-		out.Fail("pick cases: the handshake did not complete", "pick-setup", nil)
+		recordFail("pick cases: the handshake did not complete", "pick-setup", nil)
 		w.stopLoop()
 		return
 	}
@@ -1347,12 +1359,12 @@ func genPick(reps int) {
 			}()
 			desc := map[string]interface{}{"fn": "(*Session).pick", "queued": queued, "client": client, "channel": channel, "i": i, "observed": got}
 			if pan != "" {
-				out.Fail("pick() panicked: "+pan, "pick-panic", desc)
+				recordFail("pick() panicked: "+pan, "pick-panic", desc)
 				continue
 			}
 			out.Add(fmt.Sprintf("CPick %s %s %s %s %d", vh.B(queued), vh.B(client), vh.B(channel), vh.B(i), got), "pick", !queued, desc)
 			if client && channel && got == 2 {
-				out.Fail("pick() drew a re-key announcement for a client inside a channel", "pick-draws-rekey-in-channel", desc)
+				recordFail("pick() drew a re-key announcement for a client inside a channel", "pick-draws-rekey-in-channel", desc)
 			}
 		}
 	}
@@ -1385,6 +1397,7 @@ func main() {
 	out.Extra("channel_idle_tick_rounds_without_rekey", ticksWithoutRekey)
 	out.Extra("ecdh_x_length_histogram", lenHist)
 	out.Extra("pairs", pairCount)
+	out.Extra("oracle_failures_per_key", failCount)
 	out.Extra("short_secrets_forced_inside_histories", shortInHistory)
 	out.Extra("seconds_histories_pairs_xor", []float64{t1.Sub(t0).Seconds(), t2.Sub(t1).Seconds(), time.Since(t2).Seconds()})
 	out.Finish()
